@@ -345,6 +345,72 @@ func checkC20(c *Ctx) {
 		}
 		seqs, trunc := ConcPaths(sh, ConcCfg{
 			Inline: func(h *ssa.Function) bool { return !isDecSig(h.Signature) },
+			// an adapter type over a function (failableHandler(lvl.serveHTTP).ServeHTTP(w, r)): its methods are explored
+			InlineAny: func(h *ssa.Function) bool {
+				rn := RecvNamed(h)
+				if rn == nil || h.Pkg == nil || h.Pkg.Pkg.Path() != ZapPath {
+					return false
+				}
+				_, isFn := rn.Underlying().(*types.Signature)
+				return isFn
+			},
+			// the methods dispatched through a package-level table keyed by the request's method: one alternative per
+			// entry (the value looked up is that entry's function, the key is that method) and one for "no entry"
+			Fork: func(in ssa.Instruction, st *ConcState) []ConcAlt {
+				ex, ok := in.(*ssa.Extract)
+				if !ok {
+					return nil
+				}
+				lk, ok := ex.Tuple.(*ssa.Lookup)
+				if !ok || !lk.CommaOk || !strings.HasSuffix(st.Desc(lk.Index), ".Method") || lk.Referrers() == nil {
+					return nil
+				}
+				var e0, e1 ssa.Value
+				var last ssa.Instruction
+				for _, r := range *lk.Referrers() {
+					if e, isE := r.(*ssa.Extract); isE {
+						if e.Index == 0 {
+							e0 = e
+						} else {
+							e1 = e
+						}
+						if last == nil || instrIndex(e) > instrIndex(last) {
+							last = e
+						}
+					}
+				}
+				if last != in {
+					return nil
+				}
+				entries, ok := StringMapEntries(lk.X)
+				if !ok {
+					return nil
+				}
+				var keys []string
+				for k := range entries {
+					keys = append(keys, k)
+				}
+				sort.Strings(keys)
+				var alts []ConcAlt
+				for _, k := range keys {
+					a := ConcAlt{Ev: "is" + k, Alias: map[ssa.Value]ssa.Value{}, Ints: map[ssa.Value]int64{}}
+					if e0 != nil {
+						a.Alias[e0] = entries[k]
+					}
+					if e1 != nil {
+						a.Ints[e1] = 1
+					}
+					alts = append(alts, a)
+				}
+				none := ConcAlt{Ints: map[ssa.Value]int64{}, Nils: map[ssa.Value]bool{}}
+				if e1 != nil {
+					none.Ints[e1] = 0
+				}
+				if e0 != nil {
+					none.Nils[e0] = true
+				}
+				return append(alts, none)
+			},
 			Event: func(in ssa.Instruction, st *ConcState) string {
 				call, ok := in.(*ssa.Call)
 				if !ok {
